@@ -326,6 +326,9 @@ def run_cli_case(case):
             with open(os.path.join(tmp, 'in.txt'), 'wb') as f: f.write(data)
             args = args + [os.path.join(tmp, 'in.txt')]
         p = subprocess.run([sys.executable, '-m', 'markdown'] + args, input=stdin if stdin is not None else b'', stdout=subprocess.PIPE, stderr=subprocess.PIPE, env=env, cwd=tmp, timeout=120)
+        if p.returncode < 0:
+            # the child was killed by a signal (out-of-memory killer, operator): says nothing about the code under test - counted as skipped
+            raise OSError('command-line child killed by signal %d' % -p.returncode)
         if case['outfile']:
             try:
                 with open(os.path.join(tmp, 'out.html'), 'rb') as f: got = f.read()
